@@ -491,6 +491,9 @@ def leg_escape(ctx, corr):
         k = rng.randrange(1, 9)
         hs = ''.join(rng.choice('0123456789abcdefABCDEF') for _ in range(k))
         add(b'x' + hs.encode() + rng.choice([b'"', b'g', b'\\', b"'"]), int(hs, 16), k + 1)
+        # 6.4.4.4: a hexadecimal escape has NO maximum length - leading zeros make it arbitrarily long while the value stays in range
+        z = '0' * rng.choice([1, 2, 3, 7, 8, 9, 12, 17, 31])
+        add(b'x' + (z + hs).encode() + rng.choice([b'"', b'g', b'\\', b"'"]), int(hs, 16), len(z) + k + 1)
     add(b'xg', None, 0)                                   # error path (model <-> code)
     add(b'x"', None, 0)
     for b in (0x21, 0x25, 0x7e, 0x80, 0xc3, 0xff):        # not C11 escapes: default arm (model <-> code only)
@@ -603,7 +606,8 @@ def rand_content(rng, prefix, wide_ok=True):
         elif x < 0.87:
             src += b'\\' + format(rng.randrange(0, 0o400), 'o').encode()
         else:
-            src += b'\\x' + format(rng.randrange(0, 0x100 if prefix in ('', 'u8') else (0x10000 if prefix == 'u' else 0x100000000)), 'x').encode()
+            src += b'\\x' + rng.choice([b'', b'', b'0', b'000', b'0000000', b'00000000', b'000000000000']) + \
+                format(rng.randrange(0, 0x100 if prefix in ('', 'u8') else (0x10000 if prefix == 'u' else 0x100000000)), 'x').encode()
             # a hex escape takes every following hex digit: end it with a non-hex character
             src += rng.choice([b' ', b'-', b'g'])
     return src
